@@ -36,7 +36,7 @@ def _consts(quick: bool, dev: bool) -> dict:
                 "Decoys": Raw('{"none", "preflight", "override", "fwd_uri", "query"}'),
                 "Entries": Raw('{"wsgi", "serve_http"}'),
                 "Rich": False, "Dev_PrefixMatch": dev}
-    return {"PrefixNames": Raw('{"root", "vgi", "ab", "health"}'), "Exts": Raw('{"", "_status", "z", "x"}'),
+    return {"PrefixNames": Raw('{"root", "vgi", "ab", "health"}'), "Exts": Raw('{"", "_status", "z"}'),
             "Kinds": Raw('{"unary", "producer", "exchange"}'), "OAuthModes": Raw('{"none", "meta", "pkce"}'),
             "Creds": Raw('{"none", "bad", "good", "cookie_good", "cookie_bad"}'),
             "Verbs": Raw('{"GET", "POST", "OPTIONS", "HEAD", "DELETE", "PUT", "PATCH"}'),
@@ -174,11 +174,15 @@ class _World:
                 meta = self.OAuthResourceMetadata(resource="http://localhost:8000" + prefix,
                                                   authorization_servers=("http://127.0.0.1:1",),
                                                   client_id="cid" if oauth == "pkce" else None)
-            self.apps[cfg] = W.make_sync_client(
+            from vgi_rpc.http._testing import _SyncTestClient
+            from vgi_rpc.http.server import make_wsgi_app
+
+            app = make_wsgi_app(         # (make_sync_client does not pass cors_origins through)
                 self.servers[kind][0], prefix=prefix, token_key=W.KEY, authenticate=_Auth(),
                 upload_url_provider=W.UploadProvider(), enable_sticky=True, enable_health_endpoint=health_on,
                 introspect_resolver=W.token_resolver, introspect_principals=["alice"],
                 oauth_resource_metadata=meta, cors_origins="*" if len(cfg) > 4 and cfg[4] else None)
+            self.apps[cfg] = _SyncTestClient(app, prefix=prefix)
         return self.apps[cfg]
 
     def exchange_request(self, kind: str, name: str, ident: str):
@@ -241,7 +245,7 @@ def run(ctx: Ctx) -> None:
     ctx.assume("the falcon test client delivers the percent-decoded path as a WSGI server would",
                "OIDC discovery is never triggered (no GET with Accept: text/html is sent under PKCE)",
                "method names are Python identifiers not starting with '_' (rpc_methods skips the rest)")
-    exts = ["", "_status"] if quick else ["", "_status", "z", "x"]
+    exts = ["", "_status"] if quick else ["", "_status", "z"]
     wd = _World(exts)
     methods = {b + e for b in ("plain", "health", "describe", "oauth") for e in exts}
     flavours = ["ve", "pe", "af", "am"]
